@@ -432,7 +432,7 @@ func runStream(p *Property, st *Stream, d *Driver, tier string, seed uint64, rep
 
 	seen := map[string]bool{}
 	seenKeys := map[string]bool{}
-	shrunk := 0
+	shrunk := map[string]int{} // per failure kind: disagreements without a failing input must not use up the budget of the failing inputs
 	for i, c := range cases {
 		js := string(caseJSON(c))
 		first := !seen[js]
@@ -492,10 +492,10 @@ func runStream(p *Property, st *Stream, d *Driver, tier string, seed uint64, rep
 		if st.ShrinkBudget > 0 {
 			budget = st.ShrinkBudget
 		}
-		if len(res.Violations) >= 40 || shrunk >= maxShrinks {
+		if len(res.Violations) >= 40 || shrunk[kind] >= maxShrinks {
 			continue
 		}
-		shrunk++
+		shrunk[kind]++
 		g := shrink(d, f, budget)
 		key := caseKey(st.Name, g.c) + "|" + kind
 		if seenKeys[key] {
